@@ -172,6 +172,10 @@ ENTRY int verif_copy(unsigned cap, int mode, int op, const long* ids, const char
             case 3: { using std::swap; swap(src, dst); } break;
             case 4: { Buffer moved{std::move(src)}; dst = std::move(moved); } break;
             case 5: dst.clear(); dst.add_buffer(src); dst.commit(); break;
+            // the source holds an object that was built but not committed: only committed contents are copied / visited
+            case 6: { builder::NodeBuilder nb{src}; nb.set_id(ids[2] + 1).set_user(user, static_cast<string_size_type>(ulen)); } dst.add_buffer(src); dst.commit(); break;
+            case 7: { builder::NodeBuilder nb{src}; nb.set_id(ids[2] + 1).set_user(user, static_cast<string_size_type>(ulen)); } dst.add_buffer(src); dst.commit(); src.rollback(); dst.add_buffer(src); dst.commit(); break;
+            case 8: { builder::NodeBuilder nb{src}; nb.set_id(ids[2] + 1).set_user(user, static_cast<string_size_type>(ulen)); } for (const auto& item : src) dst.push_back(item); break;
             default: return -3;
         }
         return finish(dst, out, outcap, outlen);
